@@ -29,7 +29,7 @@ var c12Actors = []c12Actor{
 	{"eject-b0", func(k *kit) { k.lb.MarkBackendUnhealthy(k.backendByName("b0"), 10*time.Second) }},
 	{"req-expiring-b1", func(k *kit) { k.requestMode("10.0.0.4", "ok") }}, // b1's window has elapsed in the setup
 	{"probe-tick", func(k *kit) { // the real health-check loop (started in the setup) does the probing
-		if tk := k.s.TickerByPeriod(5 * time.Second); tk != nil {
+		if tk := k.s.TickerByPeriod(kitProbePeriod); tk != nil {
 			tk.Fire()
 		}
 	}},
